@@ -73,3 +73,54 @@ contract(
     domain=lambda tier: ({"segment": _seg(n, q)} for n in _names(tier) for q in (False, True)),
     props=["C12", "C05"],
 )
+
+# ---------------------------------------------------------------------------------------------
+# lookups over lists of bindings (heap)
+import specs.heapspec  # noqa: E402,F401
+
+
+def _values_domain(extra):
+    def gen(tier):
+        from nix_manipulator import parse
+
+        texts = ["{ }", "{ a = 1; }", "{ a = 1; b = 2; a' = 3; }", "{ a.b = 1; c = 2; }", "{ inherit a; b = 2; }", '{ "a" = 1; a = 2; }',
+                 "{ a.b = 1; a = { c = 2; }; }"]
+        for t in texts:
+            for key in ["a", "b", "c", "zz", '"a"', ""]:
+                s = parse(t).expr
+                yield extra(s, key)
+
+    return gen
+
+
+contract(
+    target=f"{M}::_find_binding",
+    params={"target_set": Ref("AttributeSet"), "key": Str},
+    returns=Ref("Binding"),
+    ensures=["result is first_binding(target_set.values, key)", "heap_unchanged()"],
+    domain=lambda tier: _values_domain(lambda s, k: {"target_set": s, "key": k})(tier),
+    props=["C05", "C12", "C14"],
+)
+
+contract(
+    target=f"{M}::_find_attrpath_root",
+    params={"target_set": Ref("AttributeSet"), "root": Str},
+    returns=Ref("Binding"),
+    ensures=["result is first_binding(target_set.values, root, True)", "heap_unchanged()"],
+    loops={0: Loop(invariant=["all(not (isinstance(target_set.values[j], Binding) and target_set.values[j].nested and "
+                              "target_set.values[j].name == root) for j in range(_i))"])},
+    domain=lambda tier: _values_domain(lambda s, k: {"target_set": s, "root": k})(tier),
+    props=["C05", "C12", "C14"],
+)
+
+contract(
+    target=f"{M}::_find_named_binding",
+    params={"values": ListRef(), "key": Str, "nested": OneOf(NoneT, Lit(True), Lit(False))},
+    returns=Ref("Binding"),
+    ensures=["result is first_binding(values, key, nested)", "heap_unchanged()"],
+    loops={0: Loop(invariant=[
+        "all(not (isinstance(values[j], Binding) and values[j].name == key and (nested is None or values[j].nested == nested)) "
+        "for j in range(_i))"])},
+    domain=False,
+    props=["C05", "C12", "C14"],
+)
